@@ -1,5 +1,4 @@
-//go:build verif
-
+//go:build verif && verif_c11
 // Verification hooks for property C11 (StreamWriter): read-only views of the
 // stream writer's buffered output and spill state. Compiled only with
 // `-tags verif`; adds code and changes none.
